@@ -995,6 +995,33 @@ func (env *SpecEnv) evalCall(e *Expr) (Val, error) {
 		}
 		x.eng.reg.AddFun("rtype", []string{SInt}, SInt)
 		return tv(Eq(App("rtype", SInt, a.T), IntLit(int64(x.eng.tagOf(t)))), boolT), nil
+	case "heapof":
+		// heapof(Type.field): the current value of a whole heap component (an SMT array indexed by reference)
+		if err := argN(1); err != nil {
+			return Val{}, err
+		}
+		key := x.heapKeyFromTextPkg(e.Args[0], env.fnPkg)
+		srt, ok := x.heapSorts[key]
+		if !ok {
+			// resolve the sort from the declared field type
+			t, err := env.resolveType(e.Args[0].Args[0].Name)
+			if err != nil {
+				return Val{}, err
+			}
+			st, isS := t.Underlying().(*types.Struct)
+			if !isS {
+				return Val{}, fmt.Errorf("heapof: %s is not a struct", t)
+			}
+			for i := 0; i < st.NumFields(); i++ {
+				if st.Field(i).Name() == e.Args[0].Name {
+					srt = SArr(SInt, x.sortOf(st.Field(i).Type()))
+				}
+			}
+			if srt == "" {
+				return Val{}, fmt.Errorf("heapof: no such field")
+			}
+		}
+		return Val{T: env.heapGet(key, srt)}, nil
 	case "nilIface":
 		return Val{T: nilIface}, nil
 	case "iface":
